@@ -1,3 +1,7 @@
-# one add(...) per claimed property that has a working check; PENDING for those designed but not yet built
-for _p in ("C01", "C05", "C06", "C09", "C13", "C15", "C17", "C18", "C19"):
+add("C19",
+    "Seeded search over schedules of a discrete-event MPI world: the real utils/mpi.py runs once per rank (master + slaves as baton-passed threads) on a simulated communicator with drawn latencies, eager/rendezvous sends, stalls and compute times; the real master loops and chunk kernels are compared with the serial result (bitwise for the row-sliced kernels), plus protocol conservation, refusal of wrong collection orders, deadlock-freedom and bounded completion after the fault horizon; a simulated multiprocessing pool permutes batch execution. Sampling, not enumeration.",
+    "Trusted: the simulated communicator implements MPI's reliable, per-channel non-overtaking semantics; result messages stay below the eager limit; real MPI progress engines and real spawn pools are outside the simulator.",
+    "deterministic simulation: seeded scheduler over baton-passed rank threads, virtual clock, latency/stall/rendezvous injection",
+    "DESIGN.md §4 C19")
+for _p in ("C01", "C05", "C06", "C09", "C13", "C15", "C17", "C18"):
     PENDING[_p] = "in the family (DESIGN §4) but its check is not built yet in this commit; not claimed until it is"
